@@ -592,6 +592,16 @@ class Tdf:
         # make sure the new block can be written before removing the old one
         self._serialize(newBlock, comment)
 
+        # ... and that add_block will find every unused slot at the end of the
+        # table once the old entry is gone
+        rest = [i for i in self.entries if i is not old_entry]
+        firstUnused = next(
+            (n for n, i in enumerate(rest) if i.type == BlockType.unusedSlot),
+            len(rest),
+        )
+        if any(i.type != BlockType.unusedSlot for i in rest[firstUnused + 1 :]):
+            raise IOError("All unused slots must be at the end of the file")
+
         self.remove_block(newBlock.type)
         self.add_block(newBlock, comment)
 
